@@ -233,6 +233,14 @@ def audit(ctx, modules, theorems):
         ctx.axioms[t] = found[t]
         ctx.oblige(t, not extra, 'theorem', 'axioms: %s' % found[t])
         allok = allok and not extra
+    if ctx.tier == 'thorough':
+        # independent re-check of the compiled property modules by the kernel re-checker
+        try:
+            rc, out = _run(['lake', 'env', 'leanchecker'] + list(modules), cwd=LEAN, timeout=1800)
+            ctx.oblige('leanchecker ' + ' '.join(modules), rc == 0, 'recheck', out)
+            allok = allok and rc == 0
+        except subprocess.TimeoutExpired:
+            ctx.notes.append('leanchecker timed out (not a verdict)')
     return allok
 
 
